@@ -268,8 +268,22 @@ fn main() {
         .take(3)
         .flat_map(|g| g.variants.iter().take(2).map(|v| jstr(&format!("{} [{}] {}", v.label, v.kind, hex::encode(&v.bytes[..v.bytes.len().min(48)])))))
         .collect();
+    // C15: identical contents minted by concurrent threads under one root key (both algorithms)
+    let mut minted_in_threads = 0;
+    if prop == "C15" {
+        let mut trng = Rng::new(seed ^ 0x1515);
+        for alg in [biscuit_auth::builder::Algorithm::Ed25519, biscuit_auth::builder::Algorithm::Secp256r1] {
+            let root = biscuit_auth::KeyPair::new_with_rng(alg, &mut trng);
+            minted_in_threads += verif_harness::chain::minted_in_threads(&root, 4, if thorough { 40 } else { 8 });
+        }
+    }
+    let stability_failures: Vec<String> = verif_harness::chain::STABILITY_FAILURES.lock().unwrap().clone();
+    let stability_checked = verif_harness::chain::STABILITY_CHECKED.load(std::sync::atomic::Ordering::Relaxed);
     println!(
-        "{{\"family\": \"chain\", \"property\": {}, \"evaluations\": {}, \"groups\": {}, \"honest_tokens\": {}, \"distinct_nontrivial\": {}, \"kind_histogram\": {{{}}}, \"verdict_histogram\": {{{}}}, \"accepted_signature_malleations\": {}, \"conformance_samples_matching_spec\": {}, \"conformance_samples_not_matching_spec\": {}, \"build_errors\": {}, \"direct_oracle_failures\": {:?}, \"panics\": {:?}, \"samples\": [{}], \"kernel_groups\": {}, \"files\": [{}]}}",
+        "{{\"family\": \"chain\", \"identifier_lists_compared\": {}, \"identifiers_minted_in_threads\": {}, \"identifier_stability_failures\": [{}], \"property\": {}, \"evaluations\": {}, \"groups\": {}, \"honest_tokens\": {}, \"distinct_nontrivial\": {}, \"kind_histogram\": {{{}}}, \"verdict_histogram\": {{{}}}, \"accepted_signature_malleations\": {}, \"conformance_samples_matching_spec\": {}, \"conformance_samples_not_matching_spec\": {}, \"build_errors\": {}, \"direct_oracle_failures\": {:?}, \"panics\": {:?}, \"samples\": [{}], \"kernel_groups\": {}, \"files\": [{}]}}",
+        stability_checked,
+        minted_in_threads,
+        stability_failures.iter().map(|x| jstr(x)).collect::<Vec<_>>().join(", "),
         jstr(&prop),
         evaluations,
         groups.len(),
